@@ -266,7 +266,8 @@ def finish(ctx, rep, t0, level_text, assumptions, write_evidence=True):
         print("KNOWN-FINDING: property=%s %s — %s" % (rep.prop, f.key, open_keys[f.key].get("what", f.message)))
     for f in violations:
         h = hashlib.sha1(f.key.encode()).hexdigest()[:12]
-        rp = os.path.join(EVIDENCE, "replay", "%s-%s.json" % (rep.prop, h))
+        rp = os.path.join(EVIDENCE if write_evidence else os.environ.get("TMPDIR", "/var/tmp"), "replay" if write_evidence else "ptreplay", "%s-%s.json" % (rep.prop, h))
+        os.makedirs(os.path.dirname(rp), exist_ok=True)
         with open(rp, "w") as fh:
             json.dump({"property": rep.prop, "finding": f.to_json(), "tier": ctx.tier,
                        "how_to_replay": "./check --replay %s" % rp}, fh, indent=1)
